@@ -376,14 +376,15 @@ NoTrailBsl == mf # "trailBsl" /\ \A i \in 1..Len(tg) : tg[i].kf # "trailBsl" /\ 
 FieldOut(f) == [key |-> FieldKeyRaw(f.kf, f.id), noeq |-> (f.kf = "noEq"),
                 txt |-> IF f.v.k = "num" THEN f.v.n.txt ELSE "", raw |-> IF f.v.k = "str" THEN StrRaw(f.v.f) ELSE <<>>,
                 isstr |-> (f.v.k = "str")]
-Line == [ lead |-> SepRaw(lead), meas |-> MeasRaw(mf), tags |-> [i \in 1..Len(tg) |-> TagRaw(tg[i])], pad |-> pad, sep1 |-> Sep1Raw,
+LineOf(m) == [ lead |-> SepRaw(lead), meas |-> MeasRaw(mf), tags |-> [i \in 1..Len(tg) |-> TagRaw(tg[i])], pad |-> pad, sep1 |-> Sep1Raw,
           fields |-> [i \in 1..Len(fl) |-> FieldOut(fl[i])],
           ts |-> [base |-> ts.base, off |-> ts.off], prec |-> pr, sep2 |-> SepRaw(s2), tail |-> SepRaw(tl),
           swallows |-> Swallows, permutable |-> NoTrailBsl, w |-> w,
           form |-> [lead |-> lead, meas |-> mf, tags |-> [i \in 1..Len(tg) |-> <<tg[i].id, tg[i].kf, tg[i].vf>>],
                     sep1 |-> s1, fields |-> [i \in 1..Len(fl) |-> <<fl[i].id, fl[i].kf, IF fl[i].v.k = "num" THEN fl[i].v.n.txt ELSE fl[i].v.f>>],
                     sep2 |-> s2, tail |-> tl],
-          expect |-> Meaning ]
+          expect |-> m ]
+Line == LineOf(Meaning)
 
 Emit == (ph = "done") => PrintT(<<"BEHAVIOUR", ToJson(Line)>>)
 
@@ -399,12 +400,26 @@ Reasons == {"missing measurement", "missing tag key", "missing tag value", "inva
             "carriage return", "trailing tab", "bad timestamp"}
 
 \* accepted lines carry their tags in strictly increasing key order (hence without duplicates)
-C12_CanonicalTagOrder == (ph = "done" /\ Meaning.res = "ok") =>
-   \A i \in 1..Len(Meaning.tags) - 1 : LexLess(Meaning.tags[i].k, Meaning.tags[i + 1].k)
+CanonicalTagOrder(m) == (m.res = "ok") => \A i \in 1..Len(m.tags) - 1 : LexLess(m.tags[i].k, m.tags[i + 1].k)
 \* every tag of the text is in the meaning exactly once
-C12_TagSetPreserved == (ph = "done" /\ Meaning.res = "ok" /\ NoTrailBsl) => Len(Meaning.tags) = Len(tg)
+TagSetPreserved(m) == (m.res = "ok" /\ NoTrailBsl) => Len(m.tags) = Len(tg)
 \* every field has a non-empty name, a type and a value
-C12_FieldsTyped == (ph = "done" /\ Meaning.res = "ok") =>
-   \A i \in 1..Len(Meaning.fields) : Meaning.fields[i].name # <<>> /\ Meaning.fields[i].type \in {"float", "integer", "unsigned", "boolean", "string"}
-C12_RejectReasons == (ph = "done" /\ Meaning.res = "reject") => Meaning.reason \in Reasons
+FieldsTyped(m) == (m.res = "ok") =>
+   \A i \in 1..Len(m.fields) : m.fields[i].name # <<>> /\ m.fields[i].type \in {"float", "integer", "unsigned", "boolean", "string"}
+RejectReasons(m) == (m.res = "reject") => m.reason \in Reasons
+
+C12_CanonicalTagOrder == (ph = "done") => CanonicalTagOrder(Meaning)
+C12_TagSetPreserved == (ph = "done") => TagSetPreserved(Meaning)
+C12_FieldsTyped == (ph = "done") => FieldsTyped(Meaning)
+C12_RejectReasons == (ph = "done") => RejectReasons(Meaning)
+
+\* the same four invariants and the print in one formula, so that the meaning of a line is computed once
+\* (used by the generation configs; a failing conjunct is named by its Assert)
+EmitChecked == (ph = "done") =>
+  LET m == Meaning IN
+    /\ Assert(CanonicalTagOrder(m), "C12_CanonicalTagOrder violated")
+    /\ Assert(TagSetPreserved(m), "C12_TagSetPreserved violated")
+    /\ Assert(FieldsTyped(m), "C12_FieldsTyped violated")
+    /\ Assert(RejectReasons(m), "C12_RejectReasons violated")
+    /\ PrintT(<<"BEHAVIOUR", ToJson(LineOf(m))>>)
 =============================================================================
